@@ -180,8 +180,212 @@ func MapOrderND(on bool) {}
 // ScheduleND: under the symbolic executor every scheduling point forks over the runnable threads.
 func ScheduleND(on bool) {}
 
-// Yield is a voluntary scheduling point.
-func Yield() { runtime.Gosched() }
+// ---- harness threads (two-thread cooperative runtime for schedule replay) ----
+//
+// Go starts f as the second harness thread. Exactly one of the two threads holds the baton and
+// runs; the baton moves only at a Yield (as the replayed schedule says), when a thread finishes,
+// or in Join. A thread that blocks inside a real lock cannot hand the baton back: the other side
+// notices after a timeout, takes the baton back and goes on (this mirrors the symbolic scheduler,
+// where a thread that finds a lock taken lets the other run); when the lock is released the stuck
+// thread runs up to its next Yield and waits there for the baton.
+
+var co struct {
+	live    bool
+	gid     [2]uint64 // goroutine ids: 0 main, 1 child
+	baton   [2]chan struct{}
+	holder  int
+	done    [2]bool
+	stuck   [2]bool // believed to be blocked in a lock
+	joining bool
+	free    bool // free-running mode (PreemptAtLocks)
+	freeDone chan struct{}
+	sched   int
+	mu      chanMutex
+}
+
+// chanMutex protects the small scheduler state without using package sync (which the harnessed
+// code may be instrumenting).
+type chanMutex struct{ c chan struct{} }
+
+func (m *chanMutex) lock() {
+	if m.c == nil {
+		panic("verifrt: scheduler not initialised")
+	}
+	m.c <- struct{}{}
+}
+func (m *chanMutex) unlock() { <-m.c }
+
+func goid() uint64 {
+	var buf [64]byte
+	n := runtime.Stack(buf[:], false)
+	f := strings.Fields(string(buf[:n]))
+	if len(f) < 2 {
+		return 0
+	}
+	id, _ := strconv.ParseUint(f[1], 10, 64)
+	return id
+}
+
+func coMe() int {
+	if goid() == co.gid[1] {
+		return 1
+	}
+	return 0
+}
+
+const coStuckAfter = 400 * time.Millisecond
+
+// PreemptAtLocks: the symbolic scheduler also switches threads at mutex acquisitions (at most n
+// pre-emptions per path). Native code has no seam at a lock, so natively the two threads run
+// freely under the Go scheduler and the harness repeats the scenario Rounds(n) times.
+func PreemptAtLocks(n int) { co.free = true }
+
+// Rounds is 1 under the symbolic executor and n natively.
+func Rounds(n int) int { return n }
+
+func Go(f func()) {
+	if co.free {
+		co.freeDone = make(chan struct{})
+		co.live = true
+		d := co.freeDone
+		start := make(chan struct{})
+		go func() {
+			defer close(d)
+			<-start
+			f()
+		}()
+		close(start)
+		for n := co.sched % 7; n > 0; n-- {
+			runtime.Gosched()
+		}
+		co.sched++
+		return
+	}
+	co.mu = chanMutex{c: make(chan struct{}, 1)}
+	co.baton = [2]chan struct{}{make(chan struct{}, 1), make(chan struct{}, 1)}
+	co.holder = 0
+	co.done = [2]bool{}
+	co.stuck = [2]bool{}
+	co.joining = false
+	co.live = true
+	co.gid[0] = goid()
+	started := make(chan struct{})
+	go func() {
+		co.gid[1] = goid()
+		close(started)
+		<-co.baton[1]
+		defer func() {
+			r := recover()
+			co.mu.lock()
+			co.done[1] = true
+			co.stuck[1] = false
+			had := co.holder == 1
+			if had {
+				co.holder = 0
+			}
+			co.mu.unlock()
+			if had {
+				co.baton[0] <- struct{}{}
+			}
+			if r != nil {
+				panic(r)
+			}
+		}()
+		f()
+	}()
+	<-started
+}
+
+// coHandOver gives the baton to the other thread and waits until it comes back; if the other
+// thread does not give it back in time it is taken to be blocked in a lock.
+func coHandOver(me int) {
+	other := 1 - me
+	co.mu.lock()
+	co.holder = other
+	co.mu.unlock()
+	co.baton[other] <- struct{}{}
+	select {
+	case <-co.baton[me]:
+	case <-time.After(coStuckAfter):
+		co.mu.lock()
+		if co.holder == other && !co.done[other] {
+			co.stuck[other] = true
+			co.holder = me
+			select {
+			case <-co.baton[other]:
+			default:
+			}
+			co.mu.unlock()
+			return
+		}
+		co.mu.unlock()
+		<-co.baton[me]
+	}
+}
+
+// Yield is a scheduling point: the replayed schedule says whether the other thread takes over.
+func Yield() {
+	if !co.live {
+		return
+	}
+	if co.free {
+		runtime.Gosched()
+		return
+	}
+	me := coMe()
+	other := 1 - me
+	co.mu.lock()
+	co.stuck[me] = false
+	mine := co.holder == me
+	co.mu.unlock()
+	if !mine {
+		// woke up from a lock while the other thread was running: wait for the baton
+		<-co.baton[me]
+	}
+	co.mu.lock()
+	if co.stuck[other] {
+		// the lock it waits for may have been released meanwhile: give it a moment to get going
+		co.mu.unlock()
+		time.Sleep(30 * time.Millisecond)
+		co.mu.lock()
+	}
+	runnable := !co.done[other] && !co.stuck[other] && !(other == 0 && co.joining)
+	co.mu.unlock()
+	if !runnable {
+		return
+	}
+	name := "sched_" + strconv.Itoa(co.sched)
+	co.sched++
+	if Choose(name, 2) != 1 {
+		return
+	}
+	coHandOver(me)
+}
+
+// Join waits for the thread started with Go.
+func Join() {
+	if !co.live {
+		return
+	}
+	if co.free {
+		<-co.freeDone
+		co.live = false
+		return
+	}
+	co.mu.lock()
+	co.joining = true
+	co.mu.unlock()
+	for {
+		co.mu.lock()
+		d := co.done[1]
+		co.mu.unlock()
+		if d {
+			break
+		}
+		coHandOver(0)
+	}
+	co.live = false
+}
 
 func RawEqual(a, b string) bool { return a == b }
 
